@@ -130,15 +130,15 @@ func reset(t interface{ Fatalf(string, ...any) }, c *sut.Cluster, leg string) bo
 		for _, n := range c.Nodes {
 			_ = n.Select(0)
 		}
-		ok, _, ds := quiesce(c)
+		ok, diff, ds := quiesce(c)
 		empty := ok
 		flushedButKept = ""
 		for i, d := range ds {
 			if len(d) != 0 {
 				empty = false
 				// the leader acknowledged FLUSHALL, a marker written after it has been applied by every node, the
-				// leader is empty, and this node still holds keys
-				if ok && !r.Val.IsErr() && len(ds[0]) == 0 && i > 0 {
+				// nodes are stable, the leader is empty, and this node still holds keys
+				if diff && !r.Val.IsErr() && len(ds[0]) == 0 && i > 0 {
 					flushedButKept = fmt.Sprintf("%s still holds %s", c.Nodes[i].ID, d.Canon())
 				}
 			}
